@@ -196,12 +196,17 @@ def _simplex(c, rows, n):
 
     def pivot(pr, pc):
         pv = T[pr][pc]
-        T[pr] = [v / pv for v in T[pr]]
+        if pv != 1:
+            T[pr] = [v / pv if v._numerator else v for v in T[pr]]
+        rowp = T[pr]
+        nz = [j for j, b in enumerate(rowp) if b._numerator]      # the tableau is sparse: touch the non-zero columns only
         for i in range(len(T)):
-            if i != pr and T[i][pc] != 0:
+            if i != pr and T[i][pc]._numerator:
                 f = T[i][pc]
-                rowp = T[pr]
-                T[i] = [a - f * b for a, b in zip(T[i], rowp)]
+                ri = list(T[i])
+                for j in nz:
+                    ri[j] = ri[j] - f * rowp[j]
+                T[i] = ri
         basis[pr] = pc
 
     def run(objrow, allowed):
@@ -228,7 +233,8 @@ def _simplex(c, rows, n):
             f = objrow[pc]
             rowp = T[pr]
             for j in range(width):
-                objrow[j] -= f * rowp[j]
+                if rowp[j]._numerator:
+                    objrow[j] -= f * rowp[j]
 
     if k:
         # phase 1: maximise -(sum of artificials)
